@@ -118,8 +118,18 @@ class Incremental:
                 obj = h.Signal(width=s["w"])
             attrs.append((s["n"], obj))
             ns[s["n"]] = obj
+        # bundle instances made together by multiplication (`b1, b2 = 2 * B()`)
+        twins = {}
         for b in mj["bundles"]:
-            obj = defs[b["of"]](port=b["port"], role=ROLE[b.get("role")], flipped=b.get("flip", False))
+            if "mult" in b:
+                twins.setdefault(b["mult"], []).append(b)
+        made = {}
+        for bs in twins.values():
+            b0 = bs[0]
+            for b, o in zip(bs, len(bs) * defs[b0["of"]](port=b0["port"], role=ROLE[b0.get("role")], flipped=b0.get("flip", False))):
+                made[b["n"]] = o
+        for b in mj["bundles"]:
+            obj = made[b["n"]] if b["n"] in made else defs[b["of"]](port=b["port"], role=ROLE[b.get("role")], flipped=b.get("flip", False))
             attrs.append((b["n"], obj))
             ns[b["n"]] = obj
         insts = {}
